@@ -11,8 +11,14 @@ CONSTANTS
   Threads = {"t1", "t2"}
   MaxMsgs = 2
   Bodies <- BodiesQuick
+  PopulatedShortcut = FALSE
+  KeyAlias <- NoWide
   RecordHist = FALSE
 INVARIANTS
+  HasherAcceptsOnlyVerified
+  NoPanic
+  StoredOnlyVerified
+  RegistryKeyInjective
   TypeOK
   FilledOnlyIfVerified
   IdCidBijective
